@@ -53,7 +53,6 @@ DEFAULT_OFF = {
     "multi_signature",     # helper called with different argument types
     "branch_first_assign", # first assignment inside a branch/loop
     "loop_first_assign",   # first assignment in the main-loop body
-    "len_of_mutable",      # len() of a name that is re-assigned / mutated later
     "str_lit_plus_lit",    # "a" + "b"
     "try",
     "list_elem_assign",
@@ -153,9 +152,11 @@ class Gen:
                 self.feat("list_index_neg" if i < 0 else "list_index")
                 return f"{n}[{i}]"
             opts += [idx, idx]
-        cs = [n for n in self.names("str") if n in self.const] + [n for n in self.names("list_int") if n in self.const]
+        cs = self.names("str") + self.names("list_int") + self.names("list_float")
+        if not self.p.on("len_of_mutable"):
+            cs = [n for n in cs if n in self.const]
         if cs:
-            opts.append(lambda: (self.feat("len_const_name"), f"len({self.choice(cs)})")[1])
+            opts += [lambda: (self.feat("len_name"), f"len({self.choice(cs)})")[1]] * 2
         hs = [h for h in self.helpers if h[2] == "int" and h[0] != self.in_func]
         if hs and not self.no_calls:
             opts += [lambda: self.call(self.choice(hs), depth - 1)] * 2
